@@ -42,3 +42,15 @@ add(
     "Exploration: for generated IR specs (quick 4.5k, thorough ~60k) the writer's message (parsed with the generated classes) must equal, field by field, the message a reference writer builds straight from the spec (presence flags, one-ofs, enum numbers, attribute flags, cfg.vertices, 16-byte UUIDs, 8-byte header), and the loader must turn reference-written messages - including variations no Python writer emits (address without presence flag, duplicated flags/attributes/edges, arbitrary vertices, reordered repeated fields, every declared enum number) - into exactly the IR a reference reader computes. Sampling, not proof.",
     "Trusts vlib/refmsg.py (reference writer/reader over the generated message classes), vlib/protoc_lite.py, the protobuf runtime.",
 )
+add(
+    "C03",
+    "stateful testing over generated operation histories; model-free invariant (lookup == reachability by iteration) after every step and after failed steps",
+    "Exploration: Hypothesis op programs (quick 6k, thorough 100k histories of up to 40 ops, swarm-selected from ~45 mutation entry points: parent setters, all set methods and in-place operators on the five owning sets, all MutableSequence mutators on ir.modules, constructors with parent= / children arguments, load(save()) twins with equal UUIDs, unrelated edits) over 3+ IRs; after every op, for every IR and every UUID ever seen plus fresh ones, get_by_uuid must return exactly the node reached by containment iteration. Sampling of histories, not proof.",
+    "Trusts vlib/forest.py (interpreter + precondition bookkeeping for UUID distinctness), Hypothesis.",
+)
+add(
+    "C04",
+    "stateful model-based testing (child->parent reference model) plus both-ends consistency, derived-accessor, aggregate-iterator and frame-condition invariants; isolation cases for shared mutable arguments",
+    "Exploration: the C03 histories (other seeds) are judged after every op by: membership <=> parent attribute for all six relations, single ownership, len vs iteration, the reference model's parent of every node (old parent forgot the node; unnamed nodes did not move), module order, .ir/.module/.section, all aggregate iterators of IR/Module/Section as multisets, and an attribute frame condition; 10% of cases construct pairs of nodes with default or shared mutable arguments and check they share no state. Sampling, not proof.",
+    "Trusts vlib/forest.py (model), Hypothesis. Re-inserting a module into the list already holding it is judged by uniqueness/membership only (position ambiguous).",
+)
